@@ -16,7 +16,7 @@ func init() {
 		Decides: "that every send to a client session's outbound queue in router and router/auth is non-blocking (select with default), the two reviewed blocking sends of the attach goroutine to its own client excepted; " +
 			"that code confined to the dealer or broker goroutine contains no blocking hand-off at all (no action-channel send, no send to the meta peer); that the wait-for graph between the router's goroutine " +
 			"roles (router/realm/broker/dealer loops, session handlers, meta-session handler, meta-procedure handler, attach, call timer), built from every blocking send/receive/Wait reachable in each role, is acyclic; " +
-			"that the RESULT retry of dealer.yield is re-entered only while the dealer asks for it and stops asking once the deadline passed; that outbound queues are created with the configured (defaulted) size.",
+			"that the RESULT retry of dealer.yield is re-entered only while the dealer asks for it and stops asking once the deadline passed; that outbound queues are created with the configured (defaulted) size; that a CANCEL is answered at once unless the callee was actually interrupted in kill mode.",
 		NotDecided: "latency bounds, scheduler fairness, user callbacks (Authorizer, PublishFilter) run under a session lock. Known finding D26: the meta-session handler can reach the RESULT retry wait while other roles wait on it.",
 		Run: runC07,
 	})
